@@ -68,6 +68,7 @@ type Ctx struct {
 	knownFired    map[string]string // signature -> example
 	violations    int
 	violationSigs map[string]bool
+	quiet         bool
 	traces        int
 	Rule          string
 	Explanation   string
@@ -183,6 +184,9 @@ func (c *Ctx) Fail(sig string, rp Replay) {
 		return // one replay per signature is enough
 	}
 	c.violationSigs[sig] = true
+	if c.quiet {
+		return
+	}
 	rp.Property, rp.Signature, rp.Seed, rp.Tier = c.Prop, sig, c.Seed, c.Tier
 	dir := filepath.Join(VerifDir(), "build", c.Prop, "replays")
 	_ = os.MkdirAll(dir, 0o755)
@@ -200,6 +204,12 @@ func (c *Ctx) Fail(sig string, rp Replay) {
 	fmt.Printf("VIOLATION property=%s replay=%s%s\n", c.Prop, path, suffix)
 	fmt.Printf("  signature=%s kind=%s\n  case=%s\n  impl=%s\n  model=%s\n  expected=%s\n  %s\n", sig, rp.Kind, truncate(rp.Case, 400), truncate(rp.Impl, 300), truncate(rp.Model, 300), truncate(rp.Expected, 300), truncate(rp.Detail, 400))
 }
+
+// Fired reports whether a violation with this signature was reported in this run.
+func (c *Ctx) Fired(sig string) bool { c.mu.Lock(); defer c.mu.Unlock(); return c.violationSigs[sig] }
+
+// Quiet makes Fail record violations without printing or writing replay files (replay by re-running a seed).
+func (c *Ctx) Quiet() { c.quiet = true }
 
 func (c *Ctx) Violations() int { c.mu.Lock(); defer c.mu.Unlock(); return c.violations }
 
